@@ -251,6 +251,16 @@ def _bor(a, b):
 
 
 ISNAN = z3.Function("isnan", z3.RealSort(), z3.BoolSort())
+F32 = z3.Function("f32", z3.RealSort(), z3.RealSort())
+
+
+def to_f32(v):
+    """narrowing to single precision: uninterpreted, idempotent, f32(0) = 0 (instances added on use)"""
+    t = sym.real(to_z3(v))
+    r = F32(t)
+    cx = ctx()
+    cx.axiom("f32: f32(f32(x)) = f32(x), f32(0) = 0", z3.And(F32(r) == r, F32(z3.RealVal(0)) == 0))
+    return SV(r)
 
 
 def _fillna(v, fill):
@@ -417,9 +427,24 @@ class RowArr(_Generic):
     def ndim(self): return 2
     @property
     def T(self): raise Unsupported("transpose of an (N,k) per-row array")
+    lead = 0  # number of leading singleton axes added by reshape((1, N, k))
+    f32 = False
+    def reshape(self, *shape):
+        shape = shape[0] if len(shape) == 1 and isinstance(shape[0], (tuple, list)) else shape
+        if len(shape) == 3 and shape[0] == 1 and not isinstance(shape[2], SV) and int(shape[2]) == self.k:
+            _len_check(self.space, shape[1])
+            r = self._new(self.vals)
+            r.lead = 1
+            r.f32 = self.f32
+            return r
+        raise Unsupported(f"reshape of a per-row array to {shape}")
     def __sym_len__(self): return self.space.n
     def copy(self): return self._new(self.vals)
     def astype(self, t, *a, **k):
+        if getattr(t, "__name__", "") in ("float32", "single"):
+            r = self._new([to_f32(v) for v in self.vals])
+            r.lead, r.f32 = self.lead, True
+            return r
         if _is_int_type(t):
             return self._new([sym.pyint(v) if isinstance(v, (SV, SB)) else int(v) for v in self.vals])
         if _is_float_type(t):
@@ -577,6 +602,8 @@ class GFrame(_Generic):
     @property
     def shape(self): return (self.space.n, len(self.cols))
     def __sym_len__(self): return self.space.n
+    def __sym_isinstance__(self, ts):
+        return any(getattr(t, "__name__", "") == "DataFrame" for t in ts)
     @property
     def loc(self): return _Loc(self)
     @property
